@@ -180,6 +180,18 @@ class Check:
 
     # ---------------------------------------------------------------- step 5
     def build_model_cli(self, timeout=1200):
+        # every module Extract.v imports has to be up to date with the regenerated coq/Gen (another check, or a
+        # run on a different /repo tree, may have rebuilt only its own targets): make them first
+        try:
+            txt = strip_coq_comments(open(os.path.join(EXTRACT, "Extract.v")).read())
+            mods = re.findall(r"\b((?:Model|Base|Gen|Proofs)\.[A-Za-z0-9_]+)", " ".join(re.findall(r"From Verif Require Import([^.]*(?:\.[A-Za-z][^.]*)*)\.", txt)))
+            targets = sorted(set(m.replace(".", "/") + ".vo" for m in mods))
+        except Exception:
+            targets = []
+        if targets:
+            ok, log = self.make(targets, timeout=timeout)
+            if not ok:
+                return None
         with Lock("coq"):
             rc, out, _ = run("ulimit -s unlimited 2>/dev/null; coqc -Q ../coq Verif Extract.v && "
                              "ocamlfind ocamlopt -package zarith -linkpkg -O2 "
